@@ -18,7 +18,8 @@
 (***************************************************************************)
 EXTENDS Index, RefFS, SequencesExt
 
-CONSTANTS BatchMembers,       \* set of member-name sequences for batched Archive calls
+CONSTANTS OpenFlags,          \* set of OpenFile flag encodings used by generated Open calls
+          BatchMembers,       \* set of member-name sequences for batched Archive calls
           MaxTape,            \* bound on Len(tape) for model checking
           Chunks,             \* content chunk ids
           AttrVals,           \* values k>=1 for Chmod/Chown/Chtimes
@@ -53,6 +54,16 @@ Archives(r, c, r2) ==
                          ELSE << <<P("CREATE", p, p, FALSE, FileNode(<<>>))>>,
                                  <<P("UPDATE", p, p, TRUE, r2[p])>> >>
     [] c.op = "Append" -> << <<P("UPDATE", p, p, TRUE, r2[p])>> >>
+    [] c.op = "Open" ->
+         LET wr == (c.k % 4) \in {1, 2}
+             tr == (c.k \div 16) % 2 = 1
+         IN IF ~Exists(r, p)
+            THEN (IF r2[p].content = <<>> THEN << <<P("CREATE", p, p, FALSE, FileNode(<<>>))>> >>
+                  ELSE << <<P("CREATE", p, p, FALSE, FileNode(<<>>))>>, <<P("UPDATE", p, p, TRUE, r2[p])>> >>)
+            ELSE IF r[p].kind = "dir" THEN << >>
+            \* the handle enters write mode when it truncates non-empty content at open or when it writes
+            ELSE IF (tr /\ wr /\ r[p].content # <<>>) \/ (c.c # "" /\ wr) THEN << <<P("UPDATE", p, p, TRUE, r2[p])>> >>
+            ELSE << >>
     [] c.op = "Remove" -> << <<P("DELETE", p, p, FALSE, r[p])>> >>
     [] c.op = "RemoveAll" ->
          IF ~Exists(r, p) THEN << >>
@@ -121,6 +132,8 @@ Calls ==
   \cup {C("WriteFile", p, Root, ch, 0) : p \in Paths, ch \in Chunks}
   \cup {C("Append", p, Root, ch, 0) : p \in {x \in Paths : x \in DOMAIN ref /\ Len(ref[x].content) < MaxContent}, ch \in Chunks}
   \cup {C("Rename", p, q, "", 0) : p \in Paths \ {Root}, q \in Paths \ {Root}}
+  \* OpenFile with a set of flag combinations, with and without a write
+  \cup {C("Open", p, Root, ch, k) : p \in Paths \ {Root}, ch \in Chunks \cup {""}, k \in OpenFlags}
   \* batched Operations.Archive: 1..MaxBatch members with content below an existing directory
   \cup {C("Archive", p, m, ch, 0) : p \in {x \in Paths : x \in DOMAIN ref /\ ref[x].kind = "dir" /\ Len(x) < MaxDepth},
                                       m \in BatchMembers, ch \in Chunks}
@@ -129,7 +142,18 @@ Calls ==
 Fits(c) == c.op = "Rename" /\ c.p \in DOMAIN ref =>
              \A s \in Subtree(ref, c.p) : Len(Rebase(s, c.p, c.q)) <= MaxDepth
 
-ArchiveOK(c) == c.op = "Archive" => \A i \in 1..Len(c.q) : ~IsDir(ref, c.p \o <<c.q[i]>>)
+\* a write through the handle is only generated where chunk-level contents can express the result:
+\* the handle can write, and the write appends, or replaces empty / truncated content
+OpenOK(c) ==
+  IF c.op # "Open" THEN TRUE
+  ELSE LET wr == (c.k % 4) \in {1, 2}
+           ap == (c.k \div 4) % 2 = 1
+           tr == (c.k \div 16) % 2 = 1
+           isFile == IF c.p \in DOMAIN ref THEN ref[c.p].kind = "file" ELSE FALSE
+           len == IF isFile THEN Len(ref[c.p].content) ELSE 0
+       IN /\ (tr => wr)
+          /\ (c.c # "" => (wr /\ (ap \/ tr \/ len = 0) /\ ((isFile /\ ap /\ ~tr) => len < MaxContent)))
+ArchiveOK(c) == OpenOK(c) /\ (c.op = "Archive" => \A i \in 1..Len(c.q) : ~IsDir(ref, c.p \o <<c.q[i]>>))
 Next == \E c \in Calls : Fits(c) /\ ArchiveOK(c) /\ Do(c)
 
 Spec == Init /\ [][Next]_vars
